@@ -187,6 +187,13 @@ pub struct World {
     /// addresses that returned one of those nonces in a handshake ACK delivered to the server:
     /// the only proof of reachability there is, independent of what the server believes
     pub verified: HashMap<SocketAddr, bool>,
+    /// addresses from which an ACK echoing a nonce the server sent them has been delivered
+    pub ack_seen: HashMap<SocketAddr, bool>,
+    /// addresses Server::client() knew after the previous server call / valid ACKs delivered since
+    pub tracked_prev: Vec<SocketAddr>,
+    pub valid_ack_since_call: Vec<SocketAddr>,
+    pub wire_mark: usize,
+    pub tracked_error_reported: bool,
     pub violations: Vec<Violation>,
     pub c: Counters,
     pub panicked: bool,
@@ -279,6 +286,11 @@ impl World {
             untracked_reported: false,
             synack_nonces: HashMap::new(),
             verified: HashMap::new(),
+            ack_seen: HashMap::new(),
+            tracked_prev: Vec::new(),
+            valid_ack_since_call: Vec::new(),
+            wire_mark: 0,
+            tracked_error_reported: false,
             violations: Vec::new(),
             c: Counters::default(),
             panicked: false,
@@ -541,8 +553,14 @@ impl World {
                         *self.syns_delivered.entry(p.src).or_insert(0) += 1;
                     }
                     if let Some(RFrame::Ack { nonce_ack }) = decode(&p.data) {
+                        // the address has shown that it receives what the server sends it; the
+                        // handshake is complete once the server has accepted that ACK (see
+                        // on_server_event): an address refused at that point stays unverified
                         if self.synack_nonces.get(&p.src).map_or(false, |v| v.contains(&nonce_ack)) {
-                            self.verified.insert(p.src, true);
+                            self.ack_seen.insert(p.src, true);
+                            if !self.valid_ack_since_call.contains(&p.src) {
+                                self.valid_ack_since_call.push(p.src);
+                            }
                         }
                     }
                 }
@@ -640,6 +658,12 @@ impl World {
         if self.verbose {
             self.log(format!("server event {} {:?}", addr, ev));
         }
+        // C18: the handshake of an address is complete when a valid ACK from it has been delivered
+        // AND the server has accepted it (neither alone: a Connect without the ACK proves nothing
+        // about the address, an ACK that the server refuses completes nothing)
+        if ev == Ev::Connect && self.ack_seen.get(&addr).copied().unwrap_or(false) {
+            self.verified.insert(addr, true);
+        }
         // C08 automaton per address
         let st = *self.server.conn_state.get(&addr).unwrap_or(&0);
         if st == 1 && ev == Ev::Error("timeout") {
@@ -704,14 +728,45 @@ impl World {
         }
         // C17: tracked connections via the public lookup
         let mut tracked = 0;
+        let mut tracked_now: Vec<SocketAddr> = Vec::new();
         {
             let srv = self.server.server.as_ref().unwrap();
             for a in &self.known_addrs {
                 if srv.client(a).is_some() {
                     tracked += 1;
+                    tracked_now.push(*a);
                 }
             }
         }
+        // C07: a handshake frame never disturbs an address the server already tracks. The only
+        // handshake error a tracked address is ever sent is the refusal of its own valid ACK at
+        // activation; a SYN (repeated, stale or forged) from a pending or connected address is
+        // ignored, whatever its version and limits and however full the server is.
+        if self.keep_trace {
+            let srv_addr = self.server.addr;
+            let mut first: Option<String> = None;
+            for r in self.wire[self.wire_mark.min(self.wire.len())..].iter() {
+                if r.src != srv_addr || r.injected {
+                    continue;
+                }
+                if let Some(RFrame::Error { error, .. }) = r.frame {
+                    self.c.inc("c07_handshake_errors_sent");
+                    if self.tracked_prev.contains(&r.dst) && !self.valid_ack_since_call.contains(&r.dst) && first.is_none() {
+                        let established = self.server.conn_state.get(&r.dst) == Some(&1);
+                        first = Some(format!("the server sent a handshake error (reason {}) to {} at t={} ms although it was tracking that address ({}) and no ACK echoing its nonce had arrived since its previous call: a repeated, stale or forged SYN from a tracked address must be ignored", error, r.dst, r.t_ns / MS, if established { "established connection" } else { "handshake in progress or connection closing" }));
+                    }
+                }
+            }
+            self.wire_mark = self.wire.len();
+            if let Some(m) = first {
+                if !self.tracked_error_reported {
+                    self.tracked_error_reported = true;
+                    self.viol("C07", "handshake-error-sent-to-tracked-address", m);
+                }
+            }
+        }
+        self.tracked_prev = tracked_now;
+        self.valid_ack_since_call.clear();
         // a connection the server has reported and not ended is one it still knows: stale timers
         // or leftovers of earlier handshakes from the same address must not take it away
         {
